@@ -132,6 +132,17 @@ type Rec struct {
 	failed   bool
 	discard  bool
 	journald bool
+	sub      int      // sub-evaluations inside this case (batched cases)
+	subKeys  []string // non-trivial sub-evaluations (distinct keys)
+}
+
+// Sub counts one sub-evaluation of a batched case (e.g. one operation of a layout's
+// batch); a non-empty key marks it non-trivial and distinct by that key.
+func (c *Rec) Sub(nontrivialKey string) {
+	c.sub++
+	if nontrivialKey != "" {
+		c.subKeys = append(c.subKeys, nontrivialKey)
+	}
 }
 
 // Case sets the replayable case value (must be JSON-serialisable plain data).
@@ -218,7 +229,9 @@ func (r *Run) CheckN(part string, n int, prop Prop) {
 		_ = flag.Set("rapid.checks", strconv.Itoa(n))
 		_ = flag.Set("rapid.seed", strconv.FormatUint(r.Seed^fp64(part)|1, 10))
 		_ = flag.Set("rapid.nofailfile", "true")
-		if flag.Lookup("rapid.shrinktime").Value.String() == "30s" {
+		if st := os.Getenv("VERIF_SHRINK"); st != "" {
+			_ = flag.Set("rapid.shrinktime", st)
+		} else if flag.Lookup("rapid.shrinktime").Value.String() == "30s" {
 			_ = flag.Set("rapid.shrinktime", "20s")
 		}
 		rapid.Check(t, func(rt *rapid.T) {
@@ -253,6 +266,24 @@ func (r *Run) commit(rec *Rec) {
 	}
 	if rec.discard {
 		r.labels["discarded"]++
+		return
+	}
+	if rec.sub > 0 {
+		r.evals += rec.sub
+		r.labels["batches:"+rec.part]++
+		r.labels["part:"+rec.part] += rec.sub
+		for _, k := range rec.subKeys {
+			r.labels["nontrivial:"+rec.part]++
+			if len(r.fps) < maxFingerprints {
+				r.fps[fp64(rec.part+"\x00"+k)] = struct{}{}
+			}
+		}
+		if len(rec.subKeys) > 0 && rec.c != nil && len(r.samples) < 6 && (r.evals%5 == 1 || len(r.samples) == 0) {
+			r.samples = append(r.samples, map[string]any{"part": rec.part, "case": truncate(rec.c)})
+		}
+		for _, k := range rec.known {
+			r.known[k]++
+		}
 		return
 	}
 	r.evals++
@@ -653,4 +684,39 @@ func (b *Bytes) UnmarshalJSON(data []byte) error {
 	}
 	*b = Bytes(s)
 	return nil
+}
+
+// NewRec returns a detached recorder (calibration helpers and replays).
+func NewRec() *Rec { return &Rec{r: &Run{ID: "detached"}, part: "detached"} }
+
+// ---- minimisation of saved violations (post-processing by the driver) ---------------------
+
+// Minimizers maps part name → function that rewrites a failing raw case into a smaller
+// failing raw case (or returns nil to keep it).
+type Minimizers map[string]func(raw json.RawMessage) (smaller any, why string)
+
+// StdMinimize implements TestMinimize: VERIF_REPLAY is the violation file, VERIF_MIN_OUT the
+// path the minimised replay file is written to.
+func StdMinimize(t *testing.T, id string, m Minimizers) {
+	in, out := os.Getenv("VERIF_REPLAY"), os.Getenv("VERIF_MIN_OUT")
+	if in == "" || out == "" {
+		t.Skip("driver post-processing only")
+	}
+	rf, err := LoadReplay(in)
+	if err != nil {
+		t.Fatal(err)
+	}
+	fn, ok := m[rf.Part]
+	if !ok {
+		t.Skipf("no minimiser for part %s", rf.Part)
+	}
+	smaller, why := fn(rf.Case)
+	if smaller == nil {
+		t.Skip("no smaller case found")
+	}
+	b, _ := json.Marshal(smaller)
+	doc, _ := json.MarshalIndent(map[string]any{"property": id, "part": rf.Part, "case": json.RawMessage(b), "why": why, "minimised_from": filepath.Base(in)}, "", " ")
+	if err := os.WriteFile(out, doc, 0o644); err != nil {
+		t.Fatal(err)
+	}
 }
